@@ -4,6 +4,7 @@
 set -u
 f=$1; old=$2; new=$3; id=$4; shift 4
 cd /repo || exit 3
+if [ -n "$(git status --porcelain)" ]; then echo "REFUSING: /repo has uncommitted changes"; exit 3; fi
 python3 - "$f" "$old" "$new" <<'PY'
 import sys
 f,old,new=sys.argv[1:4]
